@@ -612,6 +612,10 @@ func Run(tier string, sh lib.Shard, rep *lib.Report) {
 	fail := func(p *node, cpd time.Duration, mode string, ops []string, v verdict) {
 		rep.Violate(v.key, v.detail, map[string]any{"engine": "enum", "binary": "vsched", "part": "c18", "program": p.String(), "check_ns": int64(cpd), "mode": mode, "ops": ops})
 	}
+	rep.Require("late_completion_scenarios")
+	if sh.I == 0 {
+		lateCompletions(rep)
+	}
 	for pi, p := range progs {
 		if !sh.Mine(pi) {
 			continue
@@ -697,6 +701,9 @@ func Run(tier string, sh lib.Shard, rep *lib.Report) {
 
 // Replay re-runs a recorded case.
 func Replay(rp map[string]any) (bool, string) {
+	if rp["mode"] == "late-completion" {
+		return replayLate(rp)
+	}
 	var p *node
 	for _, tier := range []string{"quick", "thorough"} {
 		for _, q := range programs(tier) {
